@@ -520,6 +520,12 @@ func c13Random(r *Run) {
 	if !small && !par1Set && w.S >= 16 && t.Bool(1, 2, "grow16k") {
 		w.grow16k(r)
 	}
+	if par1Set && t.Bool(1, 15, "par1-volume-count-at-the-limit") {
+		// as many parity volumes as the two-digit volume extensions allow,
+		// and a few more (Create accepts them and writes .p100, .p101, ...)
+		w.R = []int{98, 99, 100, 101, 120}[t.Draw(5, "limit-R")]
+		r.Probe("par1-volume-count-around-99")
+	}
 	var cre *OpResult
 	crashAt := -1
 	if t.Bool(1, 4, "crash-create") {
